@@ -263,3 +263,165 @@ func vK05bOptionalChain() {
 	vAssert(hEq(v1, v2), "the lowered chain yields the same value (undefined when short-circuited)")
 	vReach("end")
 }
+
+// ---- K05c: exponentiation assignment ----
+//
+// `t **= r` is lowered to `t = __pow(t, r)` with the sub-expressions of the
+// target captured so that they are evaluated once. Native semantics
+// (ECMA-262 13.15.2): evaluate the target reference, read it, evaluate r,
+// compute, write. The power operation itself is an opaque event.
+
+// hEval3 extends hEval2 with member assignment, `**=` and calls of __pow.
+func hEval3(e js_ast.Expr, st *hState, powRef func(js_ast.Expr) bool) (hV, bool) {
+	switch x := e.Data.(type) {
+	case *js_ast.ECall:
+		if powRef(x.Target) && len(x.Args) == 2 {
+			a, ok1 := hEval3(x.Args[0], st, powRef)
+			b, ok2 := hEval3(x.Args[1], st, powRef)
+			if !ok1 || !ok2 {
+				return hV{}, false
+			}
+			r := st.fresh()
+			st.trace = append(st.trace, hEvent{kind: 5, a: a, b: b})
+			return r, true
+		}
+	case *js_ast.EBinary:
+		switch x.Op {
+		case js_ast.BinOpComma:
+			if _, ok := hEval3(x.Left, st, powRef); !ok {
+				return hV{}, false
+			}
+			return hEval3(x.Right, st, powRef)
+		case js_ast.BinOpAssign, js_ast.BinOpPowAssign:
+			isPow := x.Op == js_ast.BinOpPowAssign
+			switch t := x.Left.Data.(type) {
+			case *js_ast.EIdentifier:
+				var cur hV
+				if isPow {
+					cur, _ = hEvalE(x.Left, st)
+				}
+				v, ok := hEval3(x.Right, st, powRef)
+				if !ok {
+					return hV{}, false
+				}
+				if isPow {
+					r := st.fresh()
+					st.trace = append(st.trace, hEvent{kind: 5, a: cur, b: v})
+					v = r
+				}
+				st.vars[t.Ref] = v
+				st.trace = append(st.trace, hEvent{kind: 4, a: v, ref: t.Ref.InnerIndex})
+				return v, true
+			case *js_ast.EDot, *js_ast.EIndex:
+				var o, k hV
+				var ok bool
+				if d, isDot := t.(*js_ast.EDot); isDot {
+					o, ok = hEval3(d.Target, st, powRef)
+					k = hV{tag: 3, id: 1000 + uint32(len(d.Name))}
+				} else {
+					ix := t.(*js_ast.EIndex)
+					o, ok = hEval3(ix.Target, st, powRef)
+					if ok {
+						k, ok = hEval3(ix.Index, st, powRef)
+					}
+				}
+				if !ok {
+					return hV{}, false
+				}
+				var cur hV
+				if isPow {
+					cur = st.fresh()
+					st.trace = append(st.trace, hEvent{kind: 2, a: o, b: k})
+				}
+				v, ok := hEval3(x.Right, st, powRef)
+				if !ok {
+					return hV{}, false
+				}
+				if isPow {
+					r := st.fresh()
+					st.trace = append(st.trace, hEvent{kind: 5, a: cur, b: v})
+					v = r
+				}
+				st.trace = append(st.trace, hEvent{kind: 3, a: o, b: k, c: v})
+				return v, true
+			}
+			return hV{}, false
+		}
+	}
+	return hEval2(e, st)
+}
+
+func vK05cPowAssign() {
+	p := hParser(compat.ExponentOperator)
+	target := p.hTarget()
+	right := p.hOperand("h", "b")
+	e := &js_ast.EBinary{Op: js_ast.BinOpPowAssign, Left: target, Right: right}
+	lowered := p.lowerExponentiationAssignmentOperator(e.Left.Loc, e)
+	powRef := func(t js_ast.Expr) bool {
+		id, ok := t.Data.(*js_ast.EIdentifier)
+		return ok && p.symbols[id.Ref.InnerIndex].OriginalName == "__pow"
+	}
+	// the output must not use the exponentiation operators
+	var uses func(js_ast.Expr) bool
+	uses = func(x js_ast.Expr) bool {
+		switch d := x.Data.(type) {
+		case *js_ast.EBinary:
+			return d.Op == js_ast.BinOpPow || d.Op == js_ast.BinOpPowAssign || uses(d.Left) || uses(d.Right)
+		case *js_ast.ECall:
+			r := uses(d.Target)
+			for _, a := range d.Args {
+				r = r || uses(a)
+			}
+			return r
+		case *js_ast.EDot:
+			return uses(d.Target)
+		case *js_ast.EIndex:
+			return uses(d.Target) || uses(d.Index)
+		}
+		return false
+	}
+	vAssert(!uses(lowered), "the lowered expression uses neither ** nor **=")
+
+	pool := make([]hV, 8)
+	for i := range pool {
+		pool[i] = hSymV()
+	}
+	a, b, o, k := hSymV(), hSymV(), hSymV(), hSymV()
+	s1 := hNewState(p, pool, a, b, o, k)
+	s2 := hNewState(p, pool, a, b, o, k)
+	v1, ok1 := hEval3(js_ast.Expr{Data: e}, s1, powRef)
+	v2, ok2 := hEval3(lowered, s2, powRef)
+	vAssert(ok1 && !s1.failed, "harness: original inside the evaluated fragment")
+	vAssert(ok2 && !s2.failed, "lowered expression stays inside the evaluated fragment")
+	isUser := func(ref uint32) bool {
+		for _, nm := range []string{"a", "b", "o", "k", "f", "g", "h"} {
+			if p.hRef(nm).InnerIndex == ref {
+				return true
+			}
+		}
+		return false
+	}
+	var t1, t2 []hEvent
+	for _, ev := range s1.trace {
+		if ev.kind != 4 || isUser(ev.ref) {
+			t1 = append(t1, ev)
+		}
+	}
+	for _, ev := range s2.trace {
+		if ev.kind != 4 || isUser(ev.ref) {
+			t2 = append(t2, ev)
+		}
+	}
+	vAssert(len(t1) == len(t2), "same number of observable events (calls, reads, the power operation, writes)")
+	if len(t1) == len(t2) {
+		for i := range t1 {
+			x, y := t1[i], t2[i]
+			vAssert(x.kind == y.kind && hEq(x.a, y.a) && hEq(x.b, y.b) && hEq(x.c, y.c) && x.ref == y.ref, "events happen in the same order with the same operands: the target is evaluated once, read once, then the right side, then the write")
+		}
+	}
+	vAssert(hEq(v1, v2), "the lowered expression yields the same value")
+	for _, nm := range []string{"a", "b", "o", "k"} {
+		vAssert(hEq(s1.vars[p.hRef(nm)], s2.vars[p.hRef(nm)]), "user variables end with the same values")
+	}
+	vReach("end")
+}
